@@ -16,6 +16,7 @@ package main
 import (
 	"bytes"
 	"fmt"
+	"math/rand/v2"
 	"runtime"
 	"runtime/debug"
 	"sort"
@@ -26,6 +27,8 @@ import (
 	"time"
 
 	"github.com/php-any/origami/data"
+	"github.com/php-any/origami/parser"
+	oruntime "github.com/php-any/origami/runtime"
 	"github.com/php-any/origami/std/channel"
 	"github.com/php-any/origami/verifhook"
 )
@@ -41,10 +44,18 @@ type config struct {
 	NSend int `json:"nsend"`  // sends per producer
 	NRecv int `json:"nrecv"`  // receives per consumer
 	NClos int `json:"nclose"` // closes per closer (1 or 2)
+	// Via selects the client boundary: "" = the script-facing method objects of the Channel
+	// class (GetConstruct/GetMethod("send"|"receive"|"close").Call with a call context, what
+	// `$ch->send($v)` executes); "api" = the Go API of channel.Channel directly.
+	Via string `json:"via,omitempty"`
 }
 
 func (c config) String() string {
-	return fmt.Sprintf("P%dx%d C%dx%d K%dx%d cap%d", c.P, c.NSend, c.C, c.NRecv, c.K, c.NClos, c.Cap)
+	s := fmt.Sprintf("P%dx%d C%dx%d K%dx%d cap%d", c.P, c.NSend, c.C, c.NRecv, c.K, c.NClos, c.Cap)
+	if c.Via != "" {
+		s += " via=" + c.Via
+	}
+	return s
 }
 
 type role int
@@ -163,6 +174,9 @@ type worker struct {
 	release chan struct{}
 	state   wstate // owned by the scheduler goroutine
 	point   string // where it is parked
+	mu      sync.Mutex
+	recs    []*opRec // this goroutine's operations (appended by itself; never contended)
+	passed  bool     // real-parallel runs: went through the start barrier
 }
 
 type evKind int
@@ -186,14 +200,19 @@ type decision struct {
 
 type execution struct {
 	cfg     config
-	ch      *channel.Channel
+	ch      *channel.Channel // via=api
+	cls     data.ClassStmt   // via method objects
 	workers []*worker
 	final   *worker // Z
 	events  chan event
 	over    atomic.Bool
 	seq     atomic.Int64
-	mu      sync.Mutex
-	hist    []*opRec
+	par     bool // real-parallel run: no parking, all goroutines released at once
+	procs   int
+	ready   atomic.Int32
+	armed   atomic.Bool
+	started atomic.Bool
+	spin    int
 
 	decisions   []decision
 	trace       []string // realised schedule: "<goroutine>@<point>"
@@ -211,7 +230,32 @@ var (
 	stackBuf   = make([]byte, 1<<20)
 	watchdog   = 30 * time.Second
 	spinBefore = 3
+	parMode    atomic.Bool
+	baseCtx    data.Context
+	baseOnce   sync.Once
 )
+
+// argCtx is the call context handed to the method objects: a real context of a fresh VM
+// whose positional argument 0 is the value of the call.
+type argCtx struct {
+	data.Context
+	v data.Value
+}
+
+func (a argCtx) GetIndexValue(i int) (data.Value, bool) {
+	if i == 0 && a.v != nil {
+		return a.v, true
+	}
+	return nil, false
+}
+
+func callCtx(v data.Value) data.Context {
+	baseOnce.Do(func() {
+		vm := oruntime.NewVM(parser.NewParser())
+		baseCtx = vm.CreateContext(nil)
+	})
+	return argCtx{baseCtx, v}
+}
 
 type regEntry struct {
 	x *execution
@@ -234,6 +278,13 @@ func goid() int64 {
 func installHook() {
 	hookOnce.Do(func() {
 		verifhook.SetYield(func(point string) {
+			if parMode.Load() {
+				// real-parallel runs: never park, only perturb the timing now and then
+				if rand.Uint32()&15 == 0 {
+					runtime.Gosched()
+				}
+				return
+			}
 			v, ok := registry.Load(goid())
 			if !ok {
 				return
@@ -259,80 +310,155 @@ func (x *execution) park(w *worker, point string) {
 	<-w.release
 }
 
-func (x *execution) begin(g int, op string, arg int64) *opRec {
-	r := &opRec{G: g, Op: op, Arg: arg}
-	x.mu.Lock()
+func (x *execution) begin(w *worker, op string, arg int64) *opRec {
+	r := &opRec{G: w.id, Op: op, Arg: arg}
+	w.mu.Lock()
 	r.Call = x.seq.Add(1)
-	x.hist = append(x.hist, r)
-	x.mu.Unlock()
+	w.recs = append(w.recs, r)
+	w.mu.Unlock()
 	return r
 }
 
-func (x *execution) end(r *opRec) {
-	x.mu.Lock()
+func (x *execution) end(w *worker, r *opRec, fill func()) {
+	w.mu.Lock()
+	if fill != nil {
+		fill()
+	}
 	r.Ret = x.seq.Add(1)
-	x.mu.Unlock()
+	w.mu.Unlock()
 }
 
-func (x *execution) doSend(g int, v int64) {
-	r := x.begin(g, opSend, v)
-	ok := x.ch.Send(data.NewIntValue(int(v)))
-	x.mu.Lock()
-	r.OK = ok
-	x.mu.Unlock()
-	x.end(r)
+// barrier (real-parallel runs only) holds every goroutine immediately before the call of
+// its first operation until all of them are there, so that the first operations start
+// within nanoseconds of each other: check-then-act slips that sit on one side of a yield
+// point need two goroutines inside the same few instructions at once.
+func (x *execution) barrier(w *worker) {
+	if !x.par || w.passed {
+		return
+	}
+	w.passed = true
+	defer func() {
+		// the operation starts now, not when the goroutine arrived at the barrier
+		w.mu.Lock()
+		w.recs[len(w.recs)-1].Call = x.seq.Add(1)
+		w.mu.Unlock()
+	}()
+	x.ready.Add(1)
+	// (yielding waits only: busy waiting was measured to be far slower on a loaded machine
+	// and no better at producing collisions)
+	for !x.armed.Load() {
+		runtime.Gosched()
+	}
+	for !x.started.Load() {
+		runtime.Gosched()
+	}
 }
 
-func (x *execution) doRecv(g int) bool {
-	r := x.begin(g, opRecv, 0)
-	v, ok := x.ch.Receive()
-	x.mu.Lock()
-	r.OK = ok
-	if ok {
-		if iv, isInt := v.(*data.IntValue); isInt {
-			n, _ := iv.AsInt()
-			r.Val = int64(n)
-		} else {
-			r.Bad = fmt.Sprintf("received a %T", v)
+// call invokes a script-facing method object of the Channel class the way a script call
+// does: a fresh method object from GetMethod, Call with the argument at position 0.
+func (x *execution) call(name string, arg data.Value) (data.GetValue, string) {
+	m, ok := x.cls.GetMethod(name)
+	if !ok {
+		return nil, "the Channel class has no method " + name
+	}
+	v, ctl := m.Call(callCtx(arg))
+	if ctl != nil {
+		return v, "the method raised: " + ctl.AsString()
+	}
+	return v, ""
+}
+
+func (x *execution) doSend(w *worker, v int64) {
+	r := x.begin(w, opSend, v)
+	x.barrier(w)
+	var ok bool
+	bad := ""
+	if x.cls != nil {
+		var res data.GetValue
+		res, bad = x.call("send", data.NewIntValue(int(v)))
+		if bad == "" {
+			if b, isBool := res.(*data.BoolValue); isBool {
+				ok, _ = b.AsBool()
+			} else {
+				bad = fmt.Sprintf("send returned a %T, not a bool", res)
+			}
 		}
-	} else if v != nil {
-		if _, isNull := v.(*data.NullValue); !isNull {
-			r.Bad = fmt.Sprintf("ok=false together with a value of type %T", v)
+	} else {
+		ok = x.ch.Send(data.NewIntValue(int(v)))
+	}
+	x.end(w, r, func() { r.OK, r.Bad = ok, bad })
+}
+
+func (x *execution) doRecv(w *worker) bool {
+	r := x.begin(w, opRecv, 0)
+	x.barrier(w)
+	var v data.GetValue
+	var ok bool
+	bad := ""
+	if x.cls != nil {
+		v, bad = x.call("receive", nil)
+		if _, isNull := v.(*data.NullValue); bad == "" && v != nil && !isNull {
+			ok = true
+		}
+	} else {
+		var val data.Value
+		val, ok = x.ch.Receive()
+		if val != nil {
+			v = val
+		}
+		if !ok && v != nil {
+			if _, isNull := v.(*data.NullValue); !isNull {
+				bad = fmt.Sprintf("ok=false together with a value of type %T", v)
+			}
 		}
 	}
-	x.mu.Unlock()
-	x.end(r)
+	var n int64
+	if ok {
+		if iv, isInt := v.(*data.IntValue); isInt {
+			k, _ := iv.AsInt()
+			n = int64(k)
+		} else {
+			bad = fmt.Sprintf("received a %T", v)
+		}
+	}
+	x.end(w, r, func() { r.OK, r.Val, r.Bad = ok, n, bad })
 	return ok
 }
 
-func (x *execution) doClose(g int) {
-	r := x.begin(g, opClose, 0)
-	x.ch.Close()
-	x.end(r)
+func (x *execution) doClose(w *worker) {
+	r := x.begin(w, opClose, 0)
+	x.barrier(w)
+	bad := ""
+	if x.cls != nil {
+		_, bad = x.call("close", nil)
+	} else {
+		x.ch.Close()
+	}
+	x.end(w, r, func() { r.Bad = bad })
 }
 
 // guard runs f and converts a Go panic into a crash record of the operation in flight (in
 // the real interpreter the panic kills the process).
-func (x *execution) guard(g int, f func()) {
+func (x *execution) guard(w *worker, f func()) {
 	defer func() {
 		if p := recover(); p != nil {
 			st := string(debug.Stack())
-			x.mu.Lock()
+			w.mu.Lock()
 			var open *opRec
-			for i := len(x.hist) - 1; i >= 0; i-- {
-				if x.hist[i].G == g && x.hist[i].Ret == 0 && x.hist[i].Panic == "" {
-					open = x.hist[i]
+			for i := len(w.recs) - 1; i >= 0; i-- {
+				if w.recs[i].Ret == 0 && w.recs[i].Panic == "" {
+					open = w.recs[i]
 					break
 				}
 			}
 			if open == nil {
-				open = &opRec{G: g, Op: "?", Call: x.seq.Add(1)}
-				x.hist = append(x.hist, open)
+				open = &opRec{G: w.id, Op: "?", Call: x.seq.Add(1)}
+				w.recs = append(w.recs, open)
 			}
 			open.Panic = fmt.Sprint(p)
 			open.PanicAt = x.seq.Add(1)
 			open.Site = siteOf(st)
-			x.mu.Unlock()
+			w.mu.Unlock()
 		}
 	}()
 	f()
@@ -346,23 +472,23 @@ func (x *execution) runWorker(w *worker) {
 		registry.Delete(id)
 		x.events <- event{w.id, evDone, ""}
 	}()
-	x.guard(w.id, func() {
+	x.guard(w, func() {
 		c := x.cfg
 		switch w.role {
 		case roleProducer:
 			for i := 0; i < c.NSend; i++ {
 				x.park(w, "op")
-				x.doSend(w.id, int64(w.id+1)*1_000_000+int64(i))
+				x.doSend(w, int64(w.id+1)*1_000_000+int64(i))
 			}
 		case roleConsumer:
 			for i := 0; i < c.NRecv; i++ {
 				x.park(w, "op")
-				x.doRecv(w.id)
+				x.doRecv(w)
 			}
 		case roleCloser:
 			for i := 0; i < c.NClos; i++ {
 				x.park(w, "op")
-				x.doClose(w.id)
+				x.doClose(w)
 			}
 		}
 	})
@@ -379,10 +505,10 @@ func (x *execution) runFinal(w *worker, maxRecv int) {
 		registry.Delete(id)
 		x.events <- event{w.id, evDone, ""}
 	}()
-	x.guard(-1, func() {
-		x.doClose(-1)
+	x.guard(w, func() {
+		x.doClose(w)
 		for i := 0; i < maxRecv; i++ {
-			if !x.doRecv(-1) {
+			if !x.doRecv(w) {
 				return
 			}
 		}
@@ -450,7 +576,7 @@ func parseSnapshot(b []byte) map[int64]gstatus {
 			switch {
 			case bytes.Contains(body, []byte("(*execution).park(")):
 				st = gInPark
-			case bytes.Contains(body, []byte("/std/channel.(*Channel).")):
+			case bytes.Contains(body, []byte("/std/channel.")):
 				st = gBlocked
 			}
 		}
@@ -497,7 +623,7 @@ func (x *execution) settle(all []*worker) bool {
 		if running == 0 && blocked == 0 {
 			return true
 		}
-		if spins < spinBefore {
+		if spins < x.spin {
 			spins++
 			runtime.Gosched()
 			continue
@@ -549,14 +675,78 @@ func (x *execution) byID(id int) *worker {
 // chooser decides which enabled goroutine runs next. It returns an index into enabled.
 type chooser func(step int, enabled []int, last int) int
 
-func execute(cfg config, choose chooser) *execution {
+func newExecution(cfg config) *execution {
 	installHook()
-	x := &execution{cfg: cfg, events: make(chan event, 64)}
-	x.ch = channel.NewChannel()
-	x.ch.Construct(nil, data.NewIntValue(cfg.Cap))
+	x := &execution{cfg: cfg, events: make(chan event, 64), spin: spinBefore}
+	if cfg.Via == "api" {
+		x.ch = channel.NewChannel()
+		x.ch.Construct(nil, data.NewIntValue(cfg.Cap))
+	} else {
+		x.cls = channel.NewChannelClass()
+		x.cls.GetConstruct().Call(callCtx(data.NewIntValue(cfg.Cap)))
+	}
 	for i, r := range cfg.roles() {
 		x.workers = append(x.workers, &worker{id: i, role: r, release: make(chan struct{}, 1), state: wRunning})
 	}
+	return x
+}
+
+// parExecute runs the same fixed operation lists with real parallelism: no parking, all
+// goroutines released at once behind a barrier. Quiescence (everybody finished or blocked
+// in the channel code) is still decided by stack snapshots, then the final client closes
+// and drains as in the controlled runs.
+func parExecute(cfg config, procs int) *execution {
+	x := newExecution(cfg)
+	x.par, x.procs, x.spin = true, procs, 400
+	x.over.Store(true)
+	parMode.Store(true)
+	for _, w := range x.workers {
+		go x.runWorker(w)
+	}
+	deadline := time.Now().Add(watchdog)
+	for int(x.ready.Load()) < len(x.workers) {
+		runtime.Gosched()
+		if time.Now().After(deadline) {
+			x.abandon = "workers did not reach the start barrier"
+			x.armed.Store(true)
+			x.started.Store(true)
+			return x
+		}
+	}
+	x.armed.Store(true)
+	for i := 0; i < 4000; i++ {
+		_ = x.ready.Load() // about a microsecond: whoever runs now enters the busy wait
+	}
+	x.started.Store(true)
+	if !x.settle(x.workers) {
+		x.abandon = "watchdog: the parallel run did not become quiescent"
+	}
+	for _, w := range x.workers {
+		if w.state == wBlocked {
+			x.everBlocked = true
+		}
+	}
+	x.finish()
+	return x
+}
+
+func (x *execution) anyPanic() bool {
+	for _, w := range x.workers {
+		w.mu.Lock()
+		for _, r := range w.recs {
+			if r.Panic != "" {
+				w.mu.Unlock()
+				return true
+			}
+		}
+		w.mu.Unlock()
+	}
+	return false
+}
+
+func execute(cfg config, choose chooser) *execution {
+	parMode.Store(false)
+	x := newExecution(cfg)
 	for _, w := range x.workers {
 		go x.runWorker(w)
 	}
@@ -574,14 +764,8 @@ func execute(cfg config, choose chooser) *execution {
 		if len(enabled) == 0 {
 			break
 		}
-		x.mu.Lock()
-		for _, r := range x.hist {
-			if r.Panic != "" {
-				x.crashed = true
-			}
-		}
-		x.mu.Unlock()
-		if x.crashed {
+		if x.anyPanic() {
+			x.crashed = true
 			break
 		}
 		k := choose(step, enabled, last)
@@ -615,13 +799,9 @@ func execute(cfg config, choose chooser) *execution {
 // finish ends the controlled phase: remaining parked workers run freely, the final client
 // closes and drains, and everybody is awaited.
 func (x *execution) finish() {
-	x.mu.Lock()
-	for _, r := range x.hist {
-		if r.Panic != "" {
-			x.crashed = true
-		}
+	if x.anyPanic() {
+		x.crashed = true
 	}
-	x.mu.Unlock()
 	x.over.Store(true)
 	for _, w := range x.workers {
 		if w.state == wParked {
@@ -658,7 +838,11 @@ func (x *execution) finish() {
 func (x *execution) cleanup() {
 	func() {
 		defer func() { _ = recover() }()
-		x.ch.Close()
+		if x.cls != nil {
+			x.call("close", nil)
+		} else {
+			x.ch.Close()
+		}
 	}()
 }
 
@@ -677,11 +861,18 @@ func (x *execution) leaked() int {
 }
 
 func (x *execution) history() []opRec {
-	x.mu.Lock()
-	defer x.mu.Unlock()
-	out := make([]opRec, len(x.hist))
-	for i, r := range x.hist {
-		out[i] = *r
+	var out []opRec
+	all := x.workers
+	if x.final != nil {
+		all = append(append([]*worker{}, x.workers...), x.final)
 	}
+	for _, w := range all {
+		w.mu.Lock()
+		for _, r := range w.recs {
+			out = append(out, *r)
+		}
+		w.mu.Unlock()
+	}
+	sort.SliceStable(out, func(i, j int) bool { return out[i].Call < out[j].Call })
 	return out
 }
